@@ -167,6 +167,22 @@ class Machine:
                                   f"survive or the file was not rewritten)")]
         return []
 
+    # file-name stems that are unusual but legal: dots (a suffix-minded path rewrite truncates them), leading / trailing
+    # dot, a blank, non-ASCII, another extension in front of the real one, a dotted directory
+    ODD_STEMS = ["{}", "{}", "{}", "{}", "{}", "{}.v2", "rel-1.{}", ".{}", "{}.", "{} x", "\u0142{}", "{}.bin", "{}.hex", "{}.suit"]
+
+    @classmethod
+    def odd_stem(cls, s, stem, dirs=False):
+        t = s.choice(cls.ODD_STEMS + (["d.{}/f", "d{}/f.x"] if dirs else []))
+        return t.format(stem)
+
+    @classmethod
+    def odd_for(cls, name):
+        """The same, chosen by the name itself (for machines whose slot names carry meaning)."""
+        import hashlib as _h
+
+        return cls.ODD_STEMS[_h.sha256(name.encode()).digest()[0] % len(cls.ODD_STEMS)].format(name)
+
     @staticmethod
     def note(model, o):
         """Record an Outcome in the model fields the runner reads."""
